@@ -43,9 +43,23 @@ class StubLfs:
         self.calls.append(("restore", str(path)))
         return self.restore_result
 
+    # the derived questions of the real LFS class, answered from the same scripted state (each asks `hsm_state` once)
+    def hsm_archived(self, path):
+        return self.hsm_state(path) in (self.HSM_RESTORED, self.HSM_RESTORING, self.HSM_RELEASED)
+
+    def hsm_released(self, path):
+        return self.hsm_state(path) in (self.HSM_RELEASED, self.HSM_RESTORING)
+
+    def hsm_restoring(self, path):
+        return self.hsm_state(path) == self.HSM_RESTORING
+
     def hsm_release(self, path):
+        # like the real one: only a restored file is released; an already released one is fine; anything else is refused
+        st = self.map[self.states.get(str(path), "missing")] if not self.queue else None
         self.calls.append(("release", str(path)))
-        return True
+        if st is None and self.queue:
+            return True              # scripted answer sequences (task stages) do not model the release
+        return st in (self.HSM_RESTORED, self.HSM_RELEASED, self.HSM_RESTORING)
 
     def quota_remaining(self, path):
         return None
